@@ -184,6 +184,8 @@ type Node struct {
 	lateResultPm  int
 	shuttingDown  bool
 	burstDone     bool
+	spiStep       int
+	spiCalls      int
 	syncedTo      map[uint64]bool
 	inbox         []*Msg // messages handed to the main loop and not yet taken by the (controlled) worker
 	curMsg        *Msg   // the message the worker is processing
@@ -288,6 +290,8 @@ type World struct {
 	dir      *director
 	recovering bool
 	timeUp     bool
+	runaway    bool
+	never      chan struct{}
 	live       []*liveHeight
 	liveAbstain bool
 	stableBudget, stableStart, byzSteps int
@@ -687,6 +691,7 @@ func RunBubble(t *testing.T, ch *Chooser, cfg *RunConfig, tracing bool, scen Sce
 			used: map[string]bool{}, blocked: map[[2]int]bool{}, firstCommit: map[uint64]*commitRec{}, firstCommitBy: map[uint64]int{},
 			stateSet: map[string]bool{}, extra: map[string]interface{}{}}
 		w.start = time.Now()
+		w.never = make(chan struct{})
 		verifhook.RecoveredPanicFn = w.onRecoveredPanic
 		verifhook.AtFn = func(p string) {
 			if w.atHook != nil {
